@@ -144,3 +144,137 @@ pub fn validate_increment(
 ) -> TemporalResult<()> {
     increment.validate(dividend, inclusive)
 }
+
+// ==== time / instant / duration kernels ====
+
+use crate::builtins::core::duration::normalized::NormalizedTimeDuration;
+use crate::builtins::core::{
+    DateDuration, PlainDate, PlainDateTime, PlainMonthDay, PlainYearMonth,
+};
+use crate::primitive::FiniteF64;
+use crate::time::EpochNanoseconds;
+use crate::Calendar;
+
+pub fn iso_time_round(
+    time: IsoTime,
+    smallest_unit: Unit,
+    increment: RoundingIncrement,
+    mode: RoundingMode,
+) -> TemporalResult<(i32, IsoTime)> {
+    time.round(ResolvedRoundingOptions {
+        largest_unit: Unit::Auto,
+        smallest_unit,
+        increment,
+        rounding_mode: mode,
+    })
+}
+
+pub fn iso_time_add_nanoseconds(time: IsoTime, nanoseconds: i128) -> (i32, IsoTime) {
+    time.add(NormalizedTimeDuration(nanoseconds))
+}
+
+pub fn norm_round(
+    nanoseconds: i128,
+    smallest_unit: Unit,
+    increment: RoundingIncrement,
+    mode: RoundingMode,
+) -> TemporalResult<i128> {
+    NormalizedTimeDuration(nanoseconds)
+        .round(
+            FiniteF64::default(),
+            ResolvedRoundingOptions {
+                largest_unit: Unit::Auto,
+                smallest_unit,
+                increment,
+                rounding_mode: mode,
+            },
+        )
+        .map(|(record, _)| record.normalized_time_duration().0)
+}
+
+pub fn norm_from_nanosecond_difference(one: i128, two: i128) -> TemporalResult<i128> {
+    NormalizedTimeDuration::from_nanosecond_difference(one, two).map(|n| n.0)
+}
+
+pub fn norm_add_days(nanoseconds: i128, days: i64) -> TemporalResult<i128> {
+    NormalizedTimeDuration(nanoseconds).add_days(days).map(|n| n.0)
+}
+
+pub fn iso_date_time_from_epoch_nanos(
+    nanoseconds: i128,
+    offset: i64,
+) -> TemporalResult<IsoDateTime> {
+    IsoDateTime::from_epoch_nanos(&EpochNanoseconds(nanoseconds), offset)
+}
+
+pub fn iso_date_time_balance(
+    year: i32,
+    month: i32,
+    day: i32,
+    h: i64,
+    mi: i64,
+    s: i64,
+    ms: i64,
+    us: i64,
+    ns: i64,
+) -> IsoDateTime {
+    IsoDateTime::balance(year, month, day, h, mi, s, ms, us, ns)
+}
+
+pub fn iso_date_add_date_duration(
+    date: IsoDate,
+    years: f64,
+    months: f64,
+    weeks: f64,
+    days: f64,
+    overflow: ArithmeticOverflow,
+) -> TemporalResult<IsoDate> {
+    let duration = DateDuration::new_unchecked(
+        FiniteF64::try_from(years)?,
+        FiniteF64::try_from(months)?,
+        FiniteF64::try_from(weeks)?,
+        FiniteF64::try_from(days)?,
+    );
+    date.add_date_duration(&duration, overflow)
+}
+
+pub fn iso_date_diff(
+    one: IsoDate,
+    two: IsoDate,
+    largest_unit: Unit,
+) -> TemporalResult<(f64, f64, f64, f64)> {
+    one.diff_iso_date(&two, largest_unit)
+        .map(|d| (d.years.0, d.months.0, d.weeks.0, d.days.0))
+}
+
+pub fn iso_date_time_round(
+    dt: IsoDateTime,
+    smallest_unit: Unit,
+    increment: RoundingIncrement,
+    mode: RoundingMode,
+) -> TemporalResult<IsoDateTime> {
+    dt.round(ResolvedRoundingOptions {
+        largest_unit: Unit::Auto,
+        smallest_unit,
+        increment,
+        rounding_mode: mode,
+    })
+}
+
+// ==== unchecked constructors (harness state construction without the validating entry points) ====
+
+pub fn plain_date_new_unchecked(iso: IsoDate, calendar: Calendar) -> PlainDate {
+    PlainDate::new_unchecked(iso, calendar)
+}
+
+pub fn plain_date_time_new_unchecked(iso: IsoDateTime, calendar: Calendar) -> PlainDateTime {
+    PlainDateTime::new_unchecked(iso, calendar)
+}
+
+pub fn plain_year_month_new_unchecked(iso: IsoDate, calendar: Calendar) -> PlainYearMonth {
+    PlainYearMonth::new_unchecked(iso, calendar)
+}
+
+pub fn plain_month_day_new_unchecked(iso: IsoDate, calendar: Calendar) -> PlainMonthDay {
+    PlainMonthDay::new_unchecked(iso, calendar)
+}
